@@ -112,6 +112,8 @@ def run_family(fam: Family, res: common.Result, build, rule, trusted, assume, ex
         res.case(case, tuple(nt) if isinstance(nt, list) else nt)
         res.count("strategy:" + str(o["info"].get("strategy")))
         res.count("header:" + str(o["info"].get("header_mode")))
+        for lab in o["info"].get("labels") or []:      # input classes a family's generator names itself
+            res.count(str(lab))
         if o["status"] == "ok":
             res.count(f"pages:{min(len(o['pages']), 9)}")
         fails = list(o.get("fails") or [])
